@@ -361,6 +361,12 @@ func (vc *VC) applySpec(calleeName string, spec *FuncSpec, sig *types.Signature,
 		for _, h := range at.Hints {
 			callerEnv.applyHint(h, reach)
 		}
+		for _, c := range at.Assumes {
+			f := callerEnv.evalBool(c.E)
+			callerEnv.flushSide(reach)
+			vc.assumeIf(reach, f)
+			vc.noteTrusted(fmt.Sprintf("ASSUMED at call %s of %s (resource bound, not checked): %s", label, vc.fn.Name(), c.Src))
+		}
 		for i, c := range at.Requires {
 			f := callerEnv.evalBool(c.E)
 			callerEnv.flushSide(reach)
